@@ -527,6 +527,7 @@ def run(prog, tier, seed):
     dep = adopt(
         c01.own_rules(prog, tier, T) + c02.own_rules(prog, tier, T) +
         T.results(T(c12.rule_scc, prog), T(c12.rule_scc6, prog),
+                  T(c12.rule_scc9, prog),
                   T(c05.rule_rw3, prog),
                   T(c07.rule_pure4, prog, T(c07.effects, prog)),
                   # a formula object must still be the caller's formula
